@@ -32,9 +32,9 @@ func (i *interpreter) bigIntType() types.Type {
 // pointFor is the stub of ScalarBaseMult: an injective, deterministic map from
 // the scalar to a "public point".
 func pointFor(d *big.Int) (*big.Int, *big.Int) {
-	x := new(big.Int).Add(new(big.Int).Lsh(d, 1), big.NewInt(1000003))
-	y := new(big.Int).Add(new(big.Int).Lsh(d, 1), big.NewInt(2000003))
-	return x, y
+	// the identity is the simplest injective map whose result always fits the
+	// curve's coordinate size
+	return new(big.Int).Set(d), new(big.Int).Set(d)
 }
 
 func keyIDBytes(d *big.Int) []value {
@@ -148,12 +148,19 @@ func init() {
 		case strings.Contains(name, ").ScalarBaseMult"):
 			return func(fr *frame, args []value) value {
 				i := fr.i
+				bt := i.bigIntType()
 				bs, ok := valuesToBytes(args[1].([]value))
 				if !ok {
-					panic(unsupported("ScalarBaseMult on symbolic scalar"))
+					// symbolic scalar: the point is the scalar itself (see pointFor)
+					mk := func() *value {
+						v := zero(bt)
+						cell := &v
+						call(i, fr, 0, i.sh.Pkgs["math/big"].Prog.LookupMethod(types.NewPointer(bt), i.sh.Pkgs["math/big"].Pkg, "SetBytes"), []value{cell, args[1]})
+						return cell
+					}
+					return tuple{mk(), mk()}
 				}
 				x, y := pointFor(new(big.Int).SetBytes(bs))
-				bt := i.bigIntType()
 				return tuple{i.newBig(bt, x), i.newBig(bt, y)}
 			}
 		case strings.Contains(name, ").Unmarshal") && strings.Contains(name, "nistCurve["):
@@ -222,9 +229,7 @@ func init() {
 		if pub == nil {
 			panic(targetPanic{"runtime error: invalid memory address or nil pointer dereference (ecdsa public key)"})
 		}
-		x := bigFromValue((*pub).(structure)[1].(*value))
-		d := new(big.Int).Sub(x, big.NewInt(1000003))
-		d.Rsh(d, 1)
+		d := bigFromValue((*pub).(structure)[1].(*value))
 		want := append([]value{uint8('E')}, keyIDBytes(d)...)
 		want = append(want, args[1].([]value)...)
 		return fromBoolTerm(fr.i.bytesEq(want, args[2].([]value)))
